@@ -296,22 +296,25 @@ Proof.
   destruct e; cbn [vm_expr okx] in O, H; try (refine (safe_clean _ _ _ _ _ _ W I H); reflexivity).
   - (* OIdent *)
     destruct O as (ND & NP & NA & Dn). unfold vm_call in H.
+    case_eq (has_orule RG n0); intros HR; rewrite HR in H.
+    { (* a rule of the grammar (it shadows the hard-coded names) *)
+      destruct (orule_id_nth _ HR) as (r & Nth & Nm). cbn [exec] in H. unfold vm_env in H. rewrite Nth in H. cbn [option_map] in H.
+      assert (Hin : In r RG) by (eapply nth_error_In; eauto).
+      assert (OB : okx D (oexpr_of r)) by (apply DC; auto; now rewrite Nm).
+      pose proof (wraps_clean (vme (oexpr_of r)) n (fun f1 s1 a1 x1 L1 W1 I1 H1 => IH f1 L1 (oexpr_of r) s1 a1 x1 OB W1 I1 H1)) as WC.
+      pose proof (vm_rule_body_wraps r) as WR.
+      exact (WC _ WR fuel s a x Hf W I H). }
+    cbv match in H.
     repeat match type of H with
     | exec _ _ _ (if str_eqb n0 ?k then _ else _) _ = _ => destruct (str_eqb n0 k) eqn:?; try discriminate
     end; try (refine (safe_clean _ _ _ _ _ _ W I H); reflexivity).
     + (* EOI *) destruct (prule_err _ _ _ _ _ H W) as [->|(s2 & s3 & X & S2 & W2 & S3)]; [reflexivity|].
       rewrite S3, <- S2. f_equal. eapply (safe_prog_err (PPrim MEoi) _ s2 a s3 eq_refl W2); [rewrite S2; exact I|exact X].
-    + (* a rule or a Unicode property *)
-      case_eq (has_orule RG n0); intros HR; rewrite HR in H.
-      * destruct (orule_id_nth _ HR) as (r & Nth & Nm). cbn [exec] in H. unfold vm_env in H. rewrite Nth in H. cbn [option_map] in H.
-        assert (Hin : In r RG) by (eapply nth_error_In; eauto).
-        assert (OB : okx D (oexpr_of r)) by (apply DC; auto; now rewrite Nm).
-        pose proof (wraps_clean (vme (oexpr_of r)) n (fun f1 s1 a1 x1 L1 W1 I1 H1 => IH f1 L1 (oexpr_of r) s1 a1 x1 OB W1 I1 H1)) as WC.
-        pose proof (vm_rule_body_wraps r) as WR.
-        exact (WC _ WR fuel s a x Hf W I H).
-      * case_eq (uranges n0); [intros rs Hu|intros Hu]; rewrite Hu in H; [refine (safe_clean _ _ _ _ _ _ W I H); reflexivity|].
-        assert (Nn : nth_error RG (S (List.length RG)) = None) by (apply nth_error_None; apply Nat.le_succ_diag_r).
-        cbn [exec] in H. unfold vm_env in H. rewrite Nn in H. discriminate H.
+    + (* a Unicode property *)
+      cbv match in H.
+      case_eq (uranges n0); [intros rs Hu|intros Hu]; rewrite Hu in H; [refine (safe_clean _ _ _ _ _ _ W I H); reflexivity|].
+      assert (Nn : nth_error RG (S (List.length RG)) = None) by (apply nth_error_None; apply Nat.le_succ_diag_r).
+      cbn [exec] in H. unfold vm_env in H. rewrite Nn in H. discriminate H.
   - (* OPosPred *) eapply lookahead_restores; eauto.
   - (* ONegPred *) eapply lookahead_restores; eauto.
   - (* OSeq *) eapply sequence_err_restores; eauto.
